@@ -118,6 +118,11 @@ func (x *Exec) eval(c *EvalCtx, e SExpr) Value {
 			cc = cc.bind(v.Name, Value{T: t, Term: bv})
 		}
 		body := x.evalBool(cc, n.Body)
+		if len(bound) == 1 && bound[0].Sort == SInt {
+			if ex := expandBounded(n.Kind, bound[0], body); ex != nil {
+				return Value{T: boolT, Term: ex}
+			}
+		}
 		if n.Kind == "forall" {
 			return Value{T: boolT, Term: Forall(bound, body)}
 		}
@@ -500,6 +505,14 @@ func (x *Exec) evalLocs(c *EvalCtx, e SExpr) []*Loc {
 		if v.Loc != nil {
 			return []*Loc{v.Loc}
 		}
+	case *SCall:
+		if id, ok := n.Fun.(*SIdent); ok && id.Name == "backing" && len(n.Args) == 1 {
+			sv := x.eval(c, n.Args[0])
+			if bi := x.backing[sv.Term.Key()]; bi != nil {
+				return []*Loc{bi.loc}
+			}
+			return nil // no known backing array: nothing observable is written in this model
+		}
 	}
 	return nil
 }
@@ -573,6 +586,9 @@ func (x *Exec) evalCall(c *EvalCtx, n *SCall) Value {
 				}
 				return Value{T: t, Term: w.Reg.Apply("unbox:"+bn, v.Term)}
 			}
+			if w.SortOf(t) == SIface && v.Term != nil && v.Term.Sort != SIface {
+				return Value{T: t, Term: w.Box(v.T, v.Term)}
+			}
 			return x.convert(c.st, v, t)
 		}
 	}
@@ -613,7 +629,7 @@ func (x *Exec) evalCall(c *EvalCtx, n *SCall) Value {
 		return Value{T: boolT, Term: Gt(x.specTerm(c, v), Var("alloc0", SInt))}
 	case "allocated":
 		v := x.eval(c, n.Args[0])
-		return Value{T: boolT, Term: Le(x.specTerm(c, v), Add(Var("alloc0", SInt), IntT(int64(c.st.nalloc))))}
+		return Value{T: boolT, Term: Le(x.specTerm(c, v), c.st.watermark())}
 	case "int", "int64", "byte", "uint8":
 		v := x.eval(c, n.Args[0])
 		return Value{T: builtinTypes[id.Name], Term: v.Term}
@@ -627,6 +643,14 @@ func (x *Exec) evalCall(c *EvalCtx, n *SCall) Value {
 		a := x.eval(c, n.Args[0])
 		b := x.eval(c, n.Args[1])
 		return Value{T: a.T, Term: w.SlApp(a.Term, b.Term)}
+	case "backing":
+		// backing(s): the array that slice s was taken from (only for slices created by x[lo:hi] of an array)
+		sv := x.eval(c, n.Args[0])
+		bi := x.backing[sv.Term.Key()]
+		if bi == nil {
+			panic(c.errf(n, "backing(): the slice was not taken from an array in this function"))
+		}
+		return x.readLoc(c.st, bi.loc)
 	case "apply":
 		// apply(f, args...): the (first) result of calling function value f, as the engine models dynamic calls
 		f := x.eval(c, n.Args[0])
